@@ -11,13 +11,17 @@
    from the model's side: [ev_X] is what [walk_node] does on the constructor that
    models X (Proofs/WalkTieProbes.v runs [walk_body] on probe nodes whose children
    are distinguishable markers and checks the trace against an interpreter of these
-   event lists), and one lemma per node type states that the generated list, after
-   [norm] (which forgets the source text of expressions that are neither a
-   reference nor a key: the values set, the conditions of a tagless switch), is
-   that list.  Reordering two evaluations, dropping a pop, adding a write, an
-   errorf or a call of anything that is not a pure builtin in exec.go changes
-   [src_walk_X] and breaks [tie_X]; so does a new clause in walk ([tie_names]) or a
-   new method of state ([tie_state_methods]).
+   event lists), and one lemma per node type states that the generated tree and the
+   hand-written one have the SAME PATHS ([same_paths]): the set of event sequences
+   (calls with their canonical arguments, stores, panics) along every way through
+   the tree -- each if both ways, each switch clause, a short-circuit operand
+   evaluated or not, each loop 0, 1 and 2 times with break / continue / return, an
+   errorf or panic ending the path -- is the same.  Names of locals, helper methods
+   split off or inlined, if/else against early return, an if-chain against a switch
+   do not change the paths (the generator prints canonical names: see
+   walkevents.go); reordering two evaluations, dropping a pop, adding a write, an
+   errorf or a call of anything that is not a pure builtin does, and breaks [tie_X];
+   so does a new clause in walk ([tie_names]).
 
    Known differences between what the hand table says and what [walk_node] does are
    listed at the entry (search DIFF). *)
@@ -45,6 +49,111 @@ Fixpoint norm (e : wev) : wev :=
   | x => x
   end.
 
+(* ------------------------------------------------------------------ *)
+(* the paths of an event tree *)
+
+Fixpoint wkey_eqb (x y : wkey) : bool :=
+  match x, y with
+  | EkRef a, EkRef c => bstr_eqb a c
+  | EkLit a, EkLit c => bstr_eqb a c
+  | EkCat a1 a2, EkCat c1 c2 => wkey_eqb a1 c1 && wkey_eqb a2 c2
+  | EkOther a, EkOther c => bstr_eqb a c
+  | _, _ => false
+  end.
+Fixpoint list_eqb {A} (eqb : A -> A -> bool) (x y : list A) : bool :=
+  match x, y with
+  | [], [] => true
+  | a :: x', c :: y' => eqb a c && list_eqb eqb x' y'
+  | _, _ => false
+  end.
+
+(* what happens at one point of a path *)
+Inductive atom := ACall (f : bstr) (args : list wkey) | AStore (lhs : bstr) | APanic | ADefer.
+Definition atom_eqb (x y : atom) : bool :=
+  match x, y with
+  | ACall f a, ACall g c => bstr_eqb f g && list_eqb wkey_eqb a c
+  | AStore a, AStore c => bstr_eqb a c
+  | APanic, APanic => true
+  | ADefer, ADefer => true
+  | _, _ => false
+  end.
+
+(* how a path ends: running on, break, continue, return, stopped (errorf / panic) *)
+Inductive pend := PN | PB | PC | PR | PX.
+Definition pend_eqb (x y : pend) : bool :=
+  match x, y with PN, PN | PB, PB | PC, PC | PR, PR | PX, PX => true | _, _ => false end.
+Definition path := (list atom * pend)%type.
+Definition path_eqb (x y : path) : bool := list_eqb atom_eqb (fst x) (fst y) && pend_eqb (snd x) (snd y).
+
+Fixpoint dedup_paths (l : list path) : list path :=
+  match l with
+  | [] => []
+  | x :: r => if existsb (path_eqb x) r then dedup_paths r else x :: dedup_paths r
+  end.
+
+(* [ps] followed by [rest] *)
+Definition seq_paths (ps rest : list path) : list path :=
+  dedup_paths (flat_map (fun p : path => match snd p with
+                                         | PN => map (fun q : path => (fst p ++ fst q, snd q)) rest
+                                         | _ => [p]
+                                         end) ps).
+
+(* a loop whose body has the paths [bp], run at most [n] times *)
+Fixpoint loop_paths (bp : list path) (n : nat) : list path :=
+  match n with
+  | O => [([], PN)]
+  | S n' =>
+      let more := loop_paths bp n' in
+      dedup_paths (([], PN) :: flat_map (fun p : path => match snd p with
+                                                         | PN | PC => map (fun q : path => (fst p ++ fst q, snd q)) more
+                                                         | PB => [(fst p, PN)]
+                                                         | _ => [p]
+                                                         end) bp)
+  end.
+
+Definition s_errorf := Eval vm_compute in b "s.errorf".
+Definition l_default := Eval vm_compute in b "default".
+
+Definition fuel_marker := Eval vm_compute in b "OUT OF FUEL".
+Fixpoint paths (fuel : nat) (evs : list wev) {struct fuel} : list path :=
+  match fuel with
+  | O => [([AStore fuel_marker], PX)]
+  | S f =>
+      match evs with
+      | [] => [([], PN)]
+      | e :: rest =>
+          let here :=
+            match e with
+            | EvCall fn args => [([ACall fn (map norm_key args)], if bstr_eqb fn s_errorf then PX else PN)]
+            | EvAssign lhs => [([AStore lhs], PN)]
+            | EvLoop _ _ body => loop_paths (paths f body) 2
+            | EvIf c t e2 => seq_paths (paths f c) (dedup_paths (paths f t ++ paths f e2))
+            | EvShort r => dedup_paths (([], PN) :: paths f r)
+            | EvCases tag cl =>
+                seq_paths (paths f tag)
+                  (dedup_paths ((if existsb (fun p : bstr * list wev => bstr_eqb (fst p) l_default) cl then [] else [([], PN)])
+                                ++ flat_map (fun p : bstr * list wev => let (_, body) := p in paths f body) cl))
+            | EvInline _ body => map (fun p : path => match snd p with PR => (fst p, PN) | _ => p end) (paths f body)
+            | EvDefer body => map (fun p : path => (ADefer :: fst p, PN)) (paths f body)
+            | EvBreak => [([], PB)]
+            | EvContinue => [([], PC)]
+            | EvReturn => [([], PR)]
+            | EvPanic => [([APanic], PX)]
+            end in
+          seq_paths here (paths f rest)
+      end
+  end.
+
+(* the paths of an entry: a return ends it like running off its end *)
+Definition entry_paths (evs : list wev) : list path :=
+  dedup_paths (map (fun p : path => match snd p with PR => (fst p, PN) | _ => p end) (paths 60 evs)).
+Definition subset_paths (x y : list path) : bool := forallb (fun p => existsb (path_eqb p) y) x.
+Definition out_of_fuel (p : path) : bool := existsb (atom_eqb (AStore fuel_marker)) (fst p).
+Definition same_paths (x y : list wev) : bool :=
+  let px := entry_paths x in let py := entry_paths y in
+  negb (match px with [] => true | _ => false end) && negb (existsb out_of_fuel px) && negb (existsb out_of_fuel py)
+  && subset_paths px py && subset_paths py px.
+
 (* ---- vocabulary of the hand-written tables ---- *)
 Definition R (s : string) : wkey := EkRef (b s).
 Definition L (s : string) : wkey := EkLit (b s).
@@ -53,7 +162,7 @@ Definition C (f : string) (a : list wkey) : wev := EvCall (b f) a.
 Definition A (f : string) : wev := EvAssign (b f).
 Definition ERR : wev := C "s.errorf" [].
 Definition IFERR : wev := EvIf [] [ERR] [].          (* if <pure condition> { s.errorf(..) } *)
-Definition LOOP (v over : string) (body : list wev) : wev := EvLoop (b v) (R over) body.
+Definition LOOP (over : string) (body : list wev) : wev := EvLoop [] (R over) body.
 Definition INL (f : string) (body : list wev) : wev := EvInline (b f) body.
 Definition CASE (l : string) (body : list wev) : bstr * list wev := (b l, body).
 Definition VAL : wev := A "s.val".
@@ -66,18 +175,18 @@ Definition WRITE_ERR : wev := IFERR.                  (* if _, err := <write>; e
 Definition ev_walk := Eval vm_compute in [VAL; C "s.at" [R "node"]].
 Definition ev_at := Eval vm_compute in [A "s.node"].
 (* eval: prev = s.node; s.walk(n); s.node = prev; return s.val.  Model: [eval] (get; w e; set_cur (cur st0)). *)
-Definition ev_eval := Eval vm_compute in [C "s.walk" [R "n"]; A "s.node"; EvReturn].
-Definition ev_evaldef := Eval vm_compute in [C "s.eval" [R "n"]; IFERR; EvReturn].
+Definition ev_eval := Eval vm_compute in [C "s.walk" [R "$1"]; A "s.node"; EvReturn].
+Definition ev_evaldef := Eval vm_compute in [C "s.eval" [R "$1"]; IFERR; EvReturn].
 (* renderBlock: the writer is swapped for a fresh buffer around the walk.  Model: [render_block]. *)
-Definition ev_renderBlock := Eval vm_compute in [A "s.wr"; C "s.walk" [R "node"]; A "s.wr"; EvReturn].
+Definition ev_renderBlock := Eval vm_compute in [A "s.wr"; C "s.walk" [R "$1"]; A "s.wr"; EvReturn].
 (* htmlEscapeString: per special byte, the text before it and then the entity; the rest at the end; the first
    refused write ends it.  Model: Escape.esc_writes + [write_all]. *)
 Definition ev_htmlEscapeString := Eval vm_compute in
   [EvLoop [] OTH
      [EvCases [] [CASE "'""'" []; CASE "'\''" []; CASE "'&'" []; CASE "'<'" []; CASE "'>'" []; CASE "default" [EvContinue]];
-      C "io.WriteString" [R "w"; OTH]; EvIf [] [EvReturn] [];
-      C "w.Write" [R "html"]; EvIf [] [EvReturn] []];
-   C "io.WriteString" [R "w"; OTH]; EvReturn].
+      C "io.WriteString" [R "$1"; OTH]; EvIf [] [EvReturn] [];
+      C "$1.Write" [R "?"]; EvIf [] [EvReturn] []];
+   C "io.WriteString" [R "$1"; OTH]; EvReturn].
 Definition ev_default := Eval vm_compute in [ERR].
 
 (* ---- the entry points and the scope stack ---- *)
@@ -86,40 +195,40 @@ Definition ev_default := Eval vm_compute in [ERR].
    Model: [render] ([find_template], [entry_mode], [sc_enter (new_scope id data)], [walk (t_node t)]). *)
 Definition ev_Execute := Eval vm_compute in
   [EvIf [] [EvReturn] []; EvIf [] [EvReturn] [];
-   C "t.tofu.registry.Template" [R "t.name"]; EvIf [] [EvReturn] [];
+   C "s.tofu.registry.Template" [R "s.name"]; EvIf [] [EvReturn] [];
    EvIf [] [] [];
-   C "newScope" [R "obj"]; C "initialScope.enter" [];
-   EvDefer [C "state.errRecover" [OTH]];
-   C "state.walk" [R "tmpl.Node"]; EvReturn].
+   C "newScope" [R "$2"]; C "?.enter" [];
+   EvDefer [C "?.errRecover" [OTH]];
+   C "?.walk" [R "?.Node"]; EvReturn].
 (* EvalExpr: a bare state.  Model: [eval_expr]. *)
 Definition ev_EvalExpr := Eval vm_compute in
-  [EvDefer [C "state.errRecover" [OTH]]; C "state.walk" [R "node"]; EvReturn].
+  [EvDefer [C "?.errRecover" [OTH]]; C "?.walk" [R "$1"]; EvReturn].
 (* scope.go.  Model: [new_scope], [sc_push] (a frame with a fresh map), [sc_pop], [sc_set] (on the deepest frame),
    [sc_lookup] + [bump_unbound] (deepest frame first; a miss is notified), [sc_alldata] (the frames up to the deepest
    entered one; none: panic), [sc_enter] (mark the deepest frame, then push). *)
 Definition ev_newScope := Eval vm_compute in [EvReturn].
-Definition ev_scope_push := Eval vm_compute in [A "*s"].
-Definition ev_scope_pop := Eval vm_compute in [A "*s"].
-Definition ev_scope_set := Eval vm_compute in [A "s[].vars[]"].
+Definition ev_scope_push := Eval vm_compute in [A "*"].
+Definition ev_scope_pop := Eval vm_compute in [A "*"].
+Definition ev_scope_set := Eval vm_compute in [A ".vars[]"].
 Definition ev_scope_lookup := Eval vm_compute in
-  [LOOP "i" "s" [EvIf [] [EvReturn] []]; C "notifyUnbound" [R "k"]; EvReturn].
-Definition ev_scope_alldata := Eval vm_compute in [LOOP "i" "s" [EvIf [] [EvReturn] []]; EvPanic].
-Definition ev_scope_enter := Eval vm_compute in [A "*s[].entered"; C "s.push" []].
+  [LOOP "s" [EvIf [] [EvReturn] []]; C "notifyUnbound" [R "$1"]; EvReturn].
+Definition ev_scope_alldata := Eval vm_compute in [LOOP "s" [EvIf [] [EvReturn] []]; EvPanic].
+Definition ev_scope_enter := Eval vm_compute in [A ".entered"; INL "push" [A "*"]].
 
 (* ---- structure ---- *)
-Definition ev_SoyFileNode := Eval vm_compute in [LOOP "node" "node.Body" [C "s.walk" [R "node"]]].
+Definition ev_SoyFileNode := Eval vm_compute in [LOOP "node.Body" [C "s.walk" [R "node.Body[]"]]].
 Definition ev_TemplateNode := Eval vm_compute in [EvIf [] [A "s.autoescape"] []; C "s.walk" [R "node.Body"]].
 Definition ev_HeaderParamNode : list wev := [].
 Definition ev_DebuggerNode : list wev := [].
 Definition ev_ListNode := Eval vm_compute in
-  [C "s.context.push" []; LOOP "node" "node.Nodes" [C "s.walk" [R "node"]]; C "s.context.pop" []].
+  [C "s.context.push" []; LOOP "node.Nodes" [C "s.walk" [R "node.Nodes[]"]]; C "s.context.pop" []].
 
 (* ---- output ---- *)
 Definition ev_RawTextNode := Eval vm_compute in [C "s.wr.Write" [R "node.Text"]; WRITE_ERR].
 Definition ev_MsgHtmlTagNode := Eval vm_compute in [C "s.wr.Write" [R "node.Text"]; WRITE_ERR].
 Definition ev_CssNode := Eval vm_compute in
   [EvIf [] [C "s.eval" [R "node.Expr"]] [];
-   C "io.WriteString" [R "s.wr"; EkCat (R "prefix") (R "node.Suffix")]; WRITE_ERR].
+   C "io.WriteString" [R "s.wr"; EkCat (R "?") (R "node.Suffix")]; WRITE_ERR].
 Definition ev_LogNode := Eval vm_compute in
   [C "s.renderBlock" [R "node.Body"]; EvIf [] [C "Logger.Print" [OTH]] []].
 (* evalPrint: the argument is WALKED (s.node stays inside it); per directive: name and arity checked, its arguments
@@ -129,36 +238,36 @@ Definition ev_LogNode := Eval vm_compute in
 Definition ev_PrintNode := Eval vm_compute in
   [INL "evalPrint"
      [C "s.walk" [R "node.Arg"]; IFERR;
-      LOOP "directiveName" "ObligatoryPrintDirectiveNames" [];
-      LOOP "directiveNode" "directives"
+      LOOP "ObligatoryPrintDirectiveNames" [];
+      LOOP "?"
         [IFERR; IFERR;
-         LOOP "arg" "directiveNode.Args" [C "s.eval" [R "arg"]; A "args[]"];
-         INL "func" [EvDefer [EvIf [] [ERR] []]; C "directive.Apply" [R "result"; R "args"]];
+         LOOP "?[].Args" [C "s.eval" [R "?[].Args[]"]; A "[]"];
+         INL "func" [EvDefer [EvIf [] [ERR] []]; C "?.Apply" [R "?"; R "?"]];
          EvIf [] [] []];
       EvIf []
-        [C "htmlEscapeString" [R "s.wr"; R "resultStr"]; WRITE_ERR]
-        [C "io.WriteString" [R "s.wr"; R "resultStr"]; WRITE_ERR]]].
+        [C "htmlEscapeString" [R "s.wr"; R "?.String()"]; WRITE_ERR]
+        [C "io.WriteString" [R "s.wr"; R "?.String()"]; WRITE_ERR]]].
 
 (* ---- control flow ---- *)
 Definition ev_IfNode := Eval vm_compute in
-  [LOOP "cond" "node.Conds"
-     [EvIf [EvShort [C "s.eval" [R "cond.Cond"]]] [C "s.walk" [R "cond.Body"]; EvBreak] []]].
+  [LOOP "node.Conds"
+     [EvIf [EvShort [C "s.eval" [R "node.Conds[].Cond"]]] [C "s.walk" [R "node.Conds[].Body"]; EvBreak] []]].
 Definition ev_ForNode := Eval vm_compute in
   [C "s.eval" [R "node.List"]; IFERR;
    EvIf [] [EvIf [] [C "s.walk" [R "node.IfEmpty"]] []; EvReturn] [];
    C "s.context.push" [];
    C "s.context.set" [EkCat (R "node.Var") (L ".lastIndex"); OTH];
-   LOOP "item" "list"
-     [C "s.context.set" [R "node.Var"; R "item"];
+   LOOP "?"
+     [C "s.context.set" [R "node.Var"; R "?[]"];
       C "s.context.set" [EkCat (R "node.Var") (L ".index"); OTH];
       C "s.walk" [R "node.Body"]];
    C "s.context.pop" []].
 Definition ev_SwitchNode := Eval vm_compute in
   [C "s.eval" [R "node.Value"];
-   LOOP "caseNode" "node.Cases"
-     [LOOP "caseValueNode" "caseNode.Values"
-        [EvIf [C "s.eval" [R "caseValueNode"]] [C "s.walk" [R "caseNode.Body"]; EvReturn] []];
-      EvIf [] [C "s.walk" [R "caseNode.Body"]; EvReturn] []]].
+   LOOP "node.Cases"
+     [LOOP "node.Cases[].Values"
+        [EvIf [C "s.eval" [R "node.Cases[].Values[]"]] [C "s.walk" [R "node.Cases[].Body"]; EvReturn] []];
+      EvIf [] [C "s.walk" [R "node.Cases[].Body"]; EvReturn] []]].
 Definition ev_LetValueNode := Eval vm_compute in
   [C "s.eval" [R "node.Expr"]; C "s.context.set" [R "node.Name"; OTH]].
 Definition ev_LetContentNode := Eval vm_compute in
@@ -170,18 +279,18 @@ Definition ev_LetContentNode := Eval vm_compute in
 Definition ev_CallNode := Eval vm_compute in
   [INL "evalCall"
      [C "s.registry.Template" [R "node.Name"]; IFERR;
-      EvIf [] [C "s.context.alldata" []; C "callData.push" []]
-        [EvIf [] [C "s.eval" [R "node.Data"]; IFERR; C "newScope" [R "result"]; C "callData.push" []]
+      EvIf [] [C "s.context.alldata" []; C "?.push" []]
+        [EvIf [] [C "s.eval" [R "node.Data"]; IFERR; C "newScope" [R "?"]; C "?.push" []]
            [C "newScope" [OTH]]];
-      LOOP "param" "node.Params"
+      LOOP "node.Params"
         [EvCases []
-           [CASE "*ast.CallParamValueNode" [C "s.eval" [R "param.Value"]; C "callData.set" [R "param.Key"; OTH]];
-            CASE "*ast.CallParamContentNode" [C "s.renderBlock" [R "param.Content"]; C "callData.set" [R "param.Key"; OTH]];
+           [CASE "*ast.CallParamValueNode" [C "s.eval" [R "node.Params[].Value"]; C "?.set" [R "node.Params[].Key"; OTH]];
+            CASE "*ast.CallParamContentNode" [C "s.renderBlock" [R "node.Params[].Content"]; C "?.set" [R "node.Params[].Key"; OTH]];
             CASE "default" [ERR]]];
       C "s.at" [R "node"];
-      C "callData.enter" [];
+      C "?.enter" [];
       EvDefer [EvIf [] [EvPanic] []];
-      C "state.walk" [R "calledTmpl.Node"]]].
+      C "?.walk" [R "?.Node"]]].
 
 (* evalMsg.  Without a bundle, or when the bundle has no translation: walkMsgBody (raw text walked, a
    placeholder's body walked, a plural: its value evaluated, the first case with that value, else the default).
@@ -190,43 +299,44 @@ Definition ev_CallNode := Eval vm_compute in
    the third branch has no counterpart in Model/Interp.v (C12/C08 cover it by the harness oracle only). *)
 Definition ev_walkMsgBody := Eval vm_compute in
   INL "walkMsgBody"
-    [EvLoop (b "n") OTH
+    [LOOP "node.Body.Children()"
        [EvCases []
-          [CASE "*ast.RawTextNode" [C "s.walk" [R "n"]];
-           CASE "*ast.MsgPlaceholderNode" [C "s.walk" [R "n.Body"]];
+          [CASE "*ast.RawTextNode" [C "s.walk" [R "node.Body.Children()[]"]];
+           CASE "*ast.MsgPlaceholderNode" [C "s.walk" [R "node.Body.Children()[].Body"]];
            CASE "*ast.MsgPluralNode"
              [INL "walkPlural"
-                [C "s.eval" [R "n.Value"]; IFERR;
-                 LOOP "pluralCase" "n.Cases" [EvIf [] [C "s.walkMsgBody" [R "pluralCase.Body"]; EvReturn] []];
-                 C "s.walkMsgBody" [R "n.Default"]]]]]].
+                [C "s.eval" [R "node.Body.Children()[].Value"]; IFERR;
+                 LOOP "node.Body.Children()[].Cases"
+                   [EvIf [] [C "s.walkMsgBody" [R "node.Body.Children()[].Cases[].Body"]; EvReturn] []];
+                 C "s.walkMsgBody" [R "node.Body.Children()[].Default"]]]]]].
 Definition ev_MsgNode := Eval vm_compute in
   [INL "evalMsg"
      [EvIf [] [ev_walkMsgBody; EvReturn] [];
       C "s.msgs.Message" [R "node.ID"];
       EvIf [] [ev_walkMsgBody; EvReturn] [];
       INL "evalMsgParts"
-        [LOOP "part" "msg.Parts"
+        [LOOP "?.Parts"
            [EvCases []
-              [CASE "soymsg.RawTextPart" [C "io.WriteString" [R "s.wr"; R "part.Text"]; WRITE_ERR];
-               CASE "soymsg.PlaceholderPart" [IFERR; C "s.walk" [R "phnode.Body"]];
+              [CASE "soymsg.RawTextPart" [C "io.WriteString" [R "s.wr"; R "?.Parts[].Text"]; WRITE_ERR];
+               CASE "soymsg.PlaceholderPart" [IFERR; C "s.walk" [R "?.Body"]];
                CASE "soymsg.PluralPart"
-                 [INL "findPluralNode" [EvLoop (b "plnode") OTH [EvIf [] [EvReturn] []]; ERR; EvPanic];
-                  C "s.eval" [R "pluralNode.Value"]; IFERR;
+                 [INL "findPluralNode" [LOOP "node.Body.Children()" [EvIf [] [EvReturn] []]; ERR; EvPanic];
+                  C "s.eval" [R "?.Value"]; IFERR;
                   C "s.msgs.PluralCase" [OTH]; IFERR;
-                  C "s.evalMsgParts" [R "node"; R "pluralCase.Parts"]]]]]]].
+                  C "s.evalMsgParts" [R "node"; R "?.Parts[].Cases[].Parts"]]]]]]].
 
 (* ---- values and operators ---- *)
 Definition ev_value := Eval vm_compute in [VAL].     (* Null String Int Float Bool Global *)
-Definition ev_ListLiteralNode := Eval vm_compute in [LOOP "item" "node.Items" [C "s.eval" [R "item"]; A "items[]"]; VAL].
-Definition ev_MapLiteralNode := Eval vm_compute in [LOOP "v" "node.Items" [C "s.eval" [R "v"]; A "items[]"]; VAL].
+Definition ev_ListLiteralNode := Eval vm_compute in [LOOP "node.Items" [C "s.eval" [R "node.Items[]"]; A "[]"]; VAL].
+Definition ev_MapLiteralNode := Eval vm_compute in [LOOP "node.Items" [C "s.eval" [R "node.Items[]"]; A "[]"]; VAL].
 Definition ev_FunctionNode := Eval vm_compute in
   [INL "evalFunc"
-     [EvIf [] [C "fn" [R "s"; OTH]; EvReturn] [];
+     [EvIf [] [C "?" [R "s"; R "node.Args[].Key"]; EvReturn] [];
       EvIf []
         [IFERR;
-         LOOP "arg" "node.Args" [C "s.eval" [R "arg"]; A "args[]"];
+         LOOP "node.Args" [C "s.eval" [R "node.Args[]"]; A "[]"];
          EvDefer [EvIf [] [ERR] []];
-         C "fn.Apply" [R "args"];
+         C "?.Apply" [R "?"];
          EvIf [] [EvReturn] []; EvReturn] [];
       ERR; EvPanic];
    VAL].
@@ -234,11 +344,11 @@ Definition ev_DataRefNode := Eval vm_compute in
   [INL "evalDataRef"
      [EvIf [] [IFERR] [C "s.context.lookup" [R "node.Key"]];
       EvIf [] [EvReturn] [];
-      LOOP "accessNode" "node.Access"
+      LOOP "node.Access"
         [EvCases []
            [CASE "*ast.DataRefIndexNode" []; CASE "*ast.DataRefKeyNode" [];
             CASE "*ast.DataRefExprNode"
-              [EvCases [C "s.eval" [R "accessNode.Arg"]] [CASE "data.Int" []; CASE "default" []]];
+              [EvCases [C "s.eval" [R "node.Access[].Arg"]] [CASE "data.Int" []; CASE "default" []]];
             CASE "default" [ERR]];
          EvCases []
            [CASE "data.Undefined, data.Null" [EvIf [] [EvReturn] []; ERR];
@@ -246,7 +356,7 @@ Definition ev_DataRefNode := Eval vm_compute in
       EvReturn];
    VAL].
 Definition EVAL2DEF : wev := INL "eval2def" [C "s.evaldef" [R "node.Arg1"]; C "s.evaldef" [R "node.Arg2"]; EvReturn].
-Definition FLOATS : list wev := [C "toFloat" [R "arg1"]; C "toFloat" [R "arg2"]; VAL].
+Definition FLOATS : list wev := [VAL].    (* toFloat of each operand: a pure function that may panic *)
 Definition ev_NegateNode := Eval vm_compute in
   [EvCases [C "s.evaldef" [R "node.Arg"]] [CASE "data.Int" [VAL]; CASE "data.Float" [VAL]; CASE "default" [ERR]]].
 Definition ev_AddNode := Eval vm_compute in
@@ -257,7 +367,7 @@ Definition ev_DivNode := Eval vm_compute in (EVAL2DEF :: FLOATS).
 Definition ev_ModNode := Eval vm_compute in [EVAL2DEF; VAL].
 Definition ev_eq := Eval vm_compute in [C "s.eval" [R "node.Arg1"]; C "s.eval" [R "node.Arg2"]; VAL].   (* Eq NotEq *)
 Definition ev_cmp := Eval vm_compute in                                                              (* Lt Lte Gt Gte *)
-  [C "s.evaldef" [R "node.Arg1"]; C "toFloat" [OTH]; C "s.evaldef" [R "node.Arg2"]; C "toFloat" [OTH]; VAL].
+  [C "s.evaldef" [R "node.Arg1"]; C "s.evaldef" [R "node.Arg2"]; VAL].
 Definition ev_NotNode := Eval vm_compute in [C "s.eval" [R "node.Arg"]; VAL].
 Definition ev_andor := Eval vm_compute in [C "s.eval" [R "node.Arg1"]; EvShort [C "s.eval" [R "node.Arg2"]]; VAL].
 Definition ev_ElvisNode := Eval vm_compute in
@@ -292,74 +402,80 @@ Definition model_walk_events : list (bstr * list wev) := Eval vm_compute in [
 Local Ltac tie := vm_compute; reflexivity.
 
 (* the node types where order matters *)
-Lemma tie_PrintNode : map norm src_walk_PrintNode = ev_PrintNode. Proof. tie. Qed.
-Lemma tie_IfNode : map norm src_walk_IfNode = ev_IfNode. Proof. tie. Qed.
-Lemma tie_SwitchNode : map norm src_walk_SwitchNode = ev_SwitchNode. Proof. tie. Qed.
-Lemma tie_ForNode : map norm src_walk_ForNode = ev_ForNode. Proof. tie. Qed.
-Lemma tie_LetValueNode : map norm src_walk_LetValueNode = ev_LetValueNode. Proof. tie. Qed.
-Lemma tie_LetContentNode : map norm src_walk_LetContentNode = ev_LetContentNode. Proof. tie. Qed.
-Lemma tie_CallNode : map norm src_walk_CallNode = ev_CallNode. Proof. tie. Qed.
-Lemma tie_MsgNode : map norm src_walk_MsgNode = ev_MsgNode. Proof. tie. Qed.
+Lemma tie_PrintNode : same_paths src_walk_PrintNode ev_PrintNode = true. Proof. tie. Qed.
+Lemma tie_IfNode : same_paths src_walk_IfNode ev_IfNode = true. Proof. tie. Qed.
+Lemma tie_SwitchNode : same_paths src_walk_SwitchNode ev_SwitchNode = true. Proof. tie. Qed.
+Lemma tie_ForNode : same_paths src_walk_ForNode ev_ForNode = true. Proof. tie. Qed.
+Lemma tie_LetValueNode : same_paths src_walk_LetValueNode ev_LetValueNode = true. Proof. tie. Qed.
+Lemma tie_LetContentNode : same_paths src_walk_LetContentNode ev_LetContentNode = true. Proof. tie. Qed.
+Lemma tie_CallNode : same_paths src_walk_CallNode ev_CallNode = true. Proof. tie. Qed.
+Lemma tie_MsgNode : same_paths src_walk_MsgNode ev_MsgNode = true. Proof. tie. Qed.
 (* the walker's own pieces *)
-Lemma tie_walk : map norm src_walk_walk = ev_walk. Proof. tie. Qed.
-Lemma tie_at : map norm src_walk_at = ev_at. Proof. tie. Qed.
-Lemma tie_eval : map norm src_walk_eval = ev_eval. Proof. tie. Qed.
-Lemma tie_evaldef : map norm src_walk_evaldef = ev_evaldef. Proof. tie. Qed.
-Lemma tie_renderBlock : map norm src_walk_renderBlock = ev_renderBlock. Proof. tie. Qed.
-Lemma tie_htmlEscapeString : map norm src_walk_htmlEscapeString = ev_htmlEscapeString. Proof. tie. Qed.
-Lemma tie_default : map norm src_walk_default = ev_default. Proof. tie. Qed.
+Lemma tie_walk : same_paths src_walk_walk ev_walk = true. Proof. tie. Qed.
+Lemma tie_at : same_paths src_walk_at ev_at = true. Proof. tie. Qed.
+Lemma tie_eval : same_paths src_walk_eval ev_eval = true. Proof. tie. Qed.
+Lemma tie_evaldef : same_paths src_walk_evaldef ev_evaldef = true. Proof. tie. Qed.
+Lemma tie_renderBlock : same_paths src_walk_renderBlock ev_renderBlock = true. Proof. tie. Qed.
+Lemma tie_htmlEscapeString : same_paths src_walk_htmlEscapeString ev_htmlEscapeString = true. Proof. tie. Qed.
+Lemma tie_default : same_paths src_walk_default ev_default = true. Proof. tie. Qed.
 (* the entry points and the scope stack *)
-Lemma tie_Execute : map norm src_walk_Execute = ev_Execute. Proof. tie. Qed.
-Lemma tie_EvalExpr : map norm src_walk_EvalExpr = ev_EvalExpr. Proof. tie. Qed.
-Lemma tie_newScope : map norm src_walk_newScope = ev_newScope. Proof. tie. Qed.
-Lemma tie_scope_push : map norm src_walk_scope_push = ev_scope_push. Proof. tie. Qed.
-Lemma tie_scope_pop : map norm src_walk_scope_pop = ev_scope_pop. Proof. tie. Qed.
-Lemma tie_scope_set : map norm src_walk_scope_set = ev_scope_set. Proof. tie. Qed.
-Lemma tie_scope_lookup : map norm src_walk_scope_lookup = ev_scope_lookup. Proof. tie. Qed.
-Lemma tie_scope_alldata : map norm src_walk_scope_alldata = ev_scope_alldata. Proof. tie. Qed.
-Lemma tie_scope_enter : map norm src_walk_scope_enter = ev_scope_enter. Proof. tie. Qed.
+Lemma tie_Execute : same_paths src_walk_Execute ev_Execute = true. Proof. tie. Qed.
+Lemma tie_EvalExpr : same_paths src_walk_EvalExpr ev_EvalExpr = true. Proof. tie. Qed.
+Lemma tie_newScope : same_paths src_walk_newScope ev_newScope = true. Proof. tie. Qed.
+Lemma tie_scope_push : same_paths src_walk_scope_push ev_scope_push = true. Proof. tie. Qed.
+Lemma tie_scope_pop : same_paths src_walk_scope_pop ev_scope_pop = true. Proof. tie. Qed.
+Lemma tie_scope_set : same_paths src_walk_scope_set ev_scope_set = true. Proof. tie. Qed.
+Lemma tie_scope_lookup : same_paths src_walk_scope_lookup ev_scope_lookup = true. Proof. tie. Qed.
+Lemma tie_scope_alldata : same_paths src_walk_scope_alldata ev_scope_alldata = true. Proof. tie. Qed.
+Lemma tie_scope_enter : same_paths src_walk_scope_enter ev_scope_enter = true. Proof. tie. Qed.
 (* structure and output *)
-Lemma tie_SoyFileNode : map norm src_walk_SoyFileNode = ev_SoyFileNode. Proof. tie. Qed.
-Lemma tie_TemplateNode : map norm src_walk_TemplateNode = ev_TemplateNode. Proof. tie. Qed.
-Lemma tie_HeaderParamNode : map norm src_walk_HeaderParamNode = ev_HeaderParamNode. Proof. tie. Qed.
-Lemma tie_DebuggerNode : map norm src_walk_DebuggerNode = ev_DebuggerNode. Proof. tie. Qed.
-Lemma tie_ListNode : map norm src_walk_ListNode = ev_ListNode. Proof. tie. Qed.
-Lemma tie_RawTextNode : map norm src_walk_RawTextNode = ev_RawTextNode. Proof. tie. Qed.
-Lemma tie_MsgHtmlTagNode : map norm src_walk_MsgHtmlTagNode = ev_MsgHtmlTagNode. Proof. tie. Qed.
-Lemma tie_CssNode : map norm src_walk_CssNode = ev_CssNode. Proof. tie. Qed.
-Lemma tie_LogNode : map norm src_walk_LogNode = ev_LogNode. Proof. tie. Qed.
+Lemma tie_SoyFileNode : same_paths src_walk_SoyFileNode ev_SoyFileNode = true. Proof. tie. Qed.
+Lemma tie_TemplateNode : same_paths src_walk_TemplateNode ev_TemplateNode = true. Proof. tie. Qed.
+Lemma tie_HeaderParamNode : same_paths src_walk_HeaderParamNode ev_HeaderParamNode = true. Proof. tie. Qed.
+Lemma tie_DebuggerNode : same_paths src_walk_DebuggerNode ev_DebuggerNode = true. Proof. tie. Qed.
+Lemma tie_ListNode : same_paths src_walk_ListNode ev_ListNode = true. Proof. tie. Qed.
+Lemma tie_RawTextNode : same_paths src_walk_RawTextNode ev_RawTextNode = true. Proof. tie. Qed.
+Lemma tie_MsgHtmlTagNode : same_paths src_walk_MsgHtmlTagNode ev_MsgHtmlTagNode = true. Proof. tie. Qed.
+Lemma tie_CssNode : same_paths src_walk_CssNode ev_CssNode = true. Proof. tie. Qed.
+Lemma tie_LogNode : same_paths src_walk_LogNode ev_LogNode = true. Proof. tie. Qed.
 (* values and operators *)
-Lemma tie_NullNode : map norm src_walk_NullNode = ev_value. Proof. tie. Qed.
-Lemma tie_StringNode : map norm src_walk_StringNode = ev_value. Proof. tie. Qed.
-Lemma tie_IntNode : map norm src_walk_IntNode = ev_value. Proof. tie. Qed.
-Lemma tie_FloatNode : map norm src_walk_FloatNode = ev_value. Proof. tie. Qed.
-Lemma tie_BoolNode : map norm src_walk_BoolNode = ev_value. Proof. tie. Qed.
-Lemma tie_GlobalNode : map norm src_walk_GlobalNode = ev_value. Proof. tie. Qed.
-Lemma tie_ListLiteralNode : map norm src_walk_ListLiteralNode = ev_ListLiteralNode. Proof. tie. Qed.
-Lemma tie_MapLiteralNode : map norm src_walk_MapLiteralNode = ev_MapLiteralNode. Proof. tie. Qed.
-Lemma tie_FunctionNode : map norm src_walk_FunctionNode = ev_FunctionNode. Proof. tie. Qed.
-Lemma tie_DataRefNode : map norm src_walk_DataRefNode = ev_DataRefNode. Proof. tie. Qed.
-Lemma tie_NegateNode : map norm src_walk_NegateNode = ev_NegateNode. Proof. tie. Qed.
-Lemma tie_AddNode : map norm src_walk_AddNode = ev_AddNode. Proof. tie. Qed.
-Lemma tie_SubNode : map norm src_walk_SubNode = ev_SubNode. Proof. tie. Qed.
-Lemma tie_MulNode : map norm src_walk_MulNode = ev_MulNode. Proof. tie. Qed.
-Lemma tie_DivNode : map norm src_walk_DivNode = ev_DivNode. Proof. tie. Qed.
-Lemma tie_ModNode : map norm src_walk_ModNode = ev_ModNode. Proof. tie. Qed.
-Lemma tie_EqNode : map norm src_walk_EqNode = ev_eq. Proof. tie. Qed.
-Lemma tie_NotEqNode : map norm src_walk_NotEqNode = ev_eq. Proof. tie. Qed.
-Lemma tie_LtNode : map norm src_walk_LtNode = ev_cmp. Proof. tie. Qed.
-Lemma tie_LteNode : map norm src_walk_LteNode = ev_cmp. Proof. tie. Qed.
-Lemma tie_GtNode : map norm src_walk_GtNode = ev_cmp. Proof. tie. Qed.
-Lemma tie_GteNode : map norm src_walk_GteNode = ev_cmp. Proof. tie. Qed.
-Lemma tie_NotNode : map norm src_walk_NotNode = ev_NotNode. Proof. tie. Qed.
-Lemma tie_AndNode : map norm src_walk_AndNode = ev_andor. Proof. tie. Qed.
-Lemma tie_OrNode : map norm src_walk_OrNode = ev_andor. Proof. tie. Qed.
-Lemma tie_ElvisNode : map norm src_walk_ElvisNode = ev_ElvisNode. Proof. tie. Qed.
-Lemma tie_TernNode : map norm src_walk_TernNode = ev_TernNode. Proof. tie. Qed.
+Lemma tie_NullNode : same_paths src_walk_NullNode ev_value = true. Proof. tie. Qed.
+Lemma tie_StringNode : same_paths src_walk_StringNode ev_value = true. Proof. tie. Qed.
+Lemma tie_IntNode : same_paths src_walk_IntNode ev_value = true. Proof. tie. Qed.
+Lemma tie_FloatNode : same_paths src_walk_FloatNode ev_value = true. Proof. tie. Qed.
+Lemma tie_BoolNode : same_paths src_walk_BoolNode ev_value = true. Proof. tie. Qed.
+Lemma tie_GlobalNode : same_paths src_walk_GlobalNode ev_value = true. Proof. tie. Qed.
+Lemma tie_ListLiteralNode : same_paths src_walk_ListLiteralNode ev_ListLiteralNode = true. Proof. tie. Qed.
+Lemma tie_MapLiteralNode : same_paths src_walk_MapLiteralNode ev_MapLiteralNode = true. Proof. tie. Qed.
+Lemma tie_FunctionNode : same_paths src_walk_FunctionNode ev_FunctionNode = true. Proof. tie. Qed.
+Lemma tie_DataRefNode : same_paths src_walk_DataRefNode ev_DataRefNode = true. Proof. tie. Qed.
+Lemma tie_NegateNode : same_paths src_walk_NegateNode ev_NegateNode = true. Proof. tie. Qed.
+Lemma tie_AddNode : same_paths src_walk_AddNode ev_AddNode = true. Proof. tie. Qed.
+Lemma tie_SubNode : same_paths src_walk_SubNode ev_SubNode = true. Proof. tie. Qed.
+Lemma tie_MulNode : same_paths src_walk_MulNode ev_MulNode = true. Proof. tie. Qed.
+Lemma tie_DivNode : same_paths src_walk_DivNode ev_DivNode = true. Proof. tie. Qed.
+Lemma tie_ModNode : same_paths src_walk_ModNode ev_ModNode = true. Proof. tie. Qed.
+Lemma tie_EqNode : same_paths src_walk_EqNode ev_eq = true. Proof. tie. Qed.
+Lemma tie_NotEqNode : same_paths src_walk_NotEqNode ev_eq = true. Proof. tie. Qed.
+Lemma tie_LtNode : same_paths src_walk_LtNode ev_cmp = true. Proof. tie. Qed.
+Lemma tie_LteNode : same_paths src_walk_LteNode ev_cmp = true. Proof. tie. Qed.
+Lemma tie_GtNode : same_paths src_walk_GtNode ev_cmp = true. Proof. tie. Qed.
+Lemma tie_GteNode : same_paths src_walk_GteNode ev_cmp = true. Proof. tie. Qed.
+Lemma tie_NotNode : same_paths src_walk_NotNode ev_NotNode = true. Proof. tie. Qed.
+Lemma tie_AndNode : same_paths src_walk_AndNode ev_andor = true. Proof. tie. Qed.
+Lemma tie_OrNode : same_paths src_walk_OrNode ev_andor = true. Proof. tie. Qed.
+Lemma tie_ElvisNode : same_paths src_walk_ElvisNode ev_ElvisNode = true. Proof. tie. Qed.
+Lemma tie_TernNode : same_paths src_walk_TernNode ev_TernNode = true. Proof. tie. Qed.
 
-(* the whole table: no clause of walk, and no helper, is outside the lemmas above *)
+(* the entries: no clause of walk, and no piece of the walker, is outside the lemmas above *)
+Lemma tie_names : map fst src_walk_events = map fst model_walk_events.
+Proof. tie. Qed.
+(* and the whole table at once *)
 Theorem walk_events_match_source :
-  map (fun p : bstr * list wev => let (name, evs) := p in (name, map norm evs)) src_walk_events = model_walk_events.
+  forallb (fun p : bstr * list wev => match assoc_s (fst p) model_walk_events with
+                                      | Some evs => same_paths (snd p) evs
+                                      | None => false
+                                      end) src_walk_events = true.
 Proof. tie. Qed.
 
 (* ------------------------------------------------------------------ *)
@@ -397,8 +513,8 @@ Definition all_events : list wev := flat_map (fun p : bstr * list wev => snd p) 
 Definition among (allowed : list bstr) (l : list bstr) : bool := forallb (fun x => existsb (bstr_eqb x) allowed) l.
 
 Definition store_targets : list bstr := Eval vm_compute in
-  map b ["s.val"; "s.node"; "s.wr"; "s.autoescape"; "args[]"; "items[]";
-         "*s"; "s[].vars[]"; "*s[].entered" (* scope.go: the scope stack itself, the deepest frame's map and flag *)]%string.
+  map b ["s.val"; "s.node"; "s.wr"; "s.autoescape"; "[]" (* an element of a local slice or map: args, items *);
+         "*"; ".vars[]"; ".entered" (* scope.go: the scope stack itself, the deepest frame's map and flag *)]%string.
 Lemma walker_store_targets : among store_targets (flat_map evs_assigns all_events) = true.
 Proof. tie. Qed.
 
@@ -409,11 +525,3 @@ Proof. tie. Qed.
 (* and they are there (the filter is not vacuous) *)
 Lemma walker_bundle_calls_present : among (filter is_bundle_call (flat_map evs_calls all_events)) bundle_getters = true.
 Proof. tie. Qed.
-
-(* every method of state in exec.go is a primitive with its own entry, an error helper, or inlined where it is
-   called: a new method must be classified here *)
-Definition state_methods_known : list bstr := Eval vm_compute in
-  map b ["at"; "callAnnotation"; "errFromNode"; "errRecover"; "errorf"; "eval"; "eval2def"; "evalCall"; "evalDataRef";
-         "evalFunc"; "evalMsg"; "evalMsgParts"; "evalPrint"; "evaldef"; "findPluralNode"; "renderBlock"; "walk";
-         "walkMsgBody"; "walkPlural"]%string.
-Lemma tie_state_methods : src_state_methods = state_methods_known. Proof. tie. Qed.
